@@ -594,6 +594,12 @@ func GetDescriptionNames() ([]string, error) {
 }
 
 func SetKeys(group string, keys []map[string]any) error {
+	return SetKeysTag(group, "", keys)
+}
+
+// SetKeysTag is like SetKeys, but if etag is not empty it fails with
+// ErrTagMismatch unless the description still matches etag.
+func SetKeysTag(group, etag string, keys []map[string]any) error {
 	if keys != nil {
 		_, err := token.ParseKeys(keys, "", "")
 		if err != nil {
@@ -607,6 +613,9 @@ func SetKeys(group string, keys []map[string]any) error {
 	desc, err := readDescription(group, false)
 	if err != nil {
 		return err
+	}
+	if etag != "" && etag != makeETag(desc.fileSize, desc.modTime) {
+		return ErrTagMismatch
 	}
 	desc.AuthKeys = keys
 	return rewriteDescriptionFile(desc.FileName, desc)
@@ -758,6 +767,12 @@ func UpdateUser(group, username string, wildcard bool, etag string, user *UserDe
 }
 
 func SetUserPassword(group, username string, wildcard bool, pw Password) error {
+	return SetUserPasswordTag(group, username, wildcard, "", pw)
+}
+
+// SetUserPasswordTag is like SetUserPassword, but if etag is not empty it
+// fails with ErrTagMismatch unless the description still matches etag.
+func SetUserPasswordTag(group, username string, wildcard bool, etag string, pw Password) error {
 	if wildcard && username != "" {
 		return errors.New("wildcard with username")
 	}
@@ -768,6 +783,9 @@ func SetUserPassword(group, username string, wildcard bool, pw Password) error {
 	desc, err := readDescription(group, false)
 	if err != nil {
 		return err
+	}
+	if etag != "" && etag != makeETag(desc.fileSize, desc.modTime) {
+		return ErrTagMismatch
 	}
 
 	if wildcard {
